@@ -296,7 +296,7 @@ func Encode(req int, op Op, nowNs int64) *Wire {
 	case "influx":
 		w.Path, w.ContentType = "/influx/api/v2/write", "text/plain"
 		esc := func(s string) string {
-			s = strings.ReplaceAll(s, `\`, `\\`)
+			// (line protocol: a backslash is literal unless it stands before a comma, an equals sign or a space)
 			s = strings.ReplaceAll(s, ",", `\,`)
 			s = strings.ReplaceAll(s, "=", `\=`)
 			return strings.ReplaceAll(s, " ", `\ `)
@@ -318,7 +318,7 @@ func Encode(req int, op Op, nowNs int64) *Wire {
 				exp := map[string]string{"measurement": meas}
 				b.WriteString(meas)
 				for _, kv := range rotate(s.Labels, s.Perm) {
-					if kv[1] == "" || strings.ContainsAny(kv[1], "\"\n\t\a\u007f\u2028") || len(kv[1]) > 100 {
+					if kv[1] == "" || strings.ContainsAny(kv[1], "\"\n\t\a\u007f\u2028") || len(kv[1]) > 100 || strings.HasSuffix(kv[1], `\`) {
 						continue
 					}
 					n := sanitizeName(kv[0])
